@@ -21,7 +21,7 @@ func (e *Engine) initFakeTypes() {
 	}
 	mk(fileInfoType, "Name", "Size", "Mode", "ModTime", "IsDir", "Sys")
 	mk(dirEntryType, "Name", "IsDir", "Type", "Info")
-	mk(creaderType, "Read", "Close")
+	mk(creaderType, "Read", "Close", "Seek")
 }
 
 func init() {
@@ -40,10 +40,24 @@ func init() {
 		vrt + "Reader": func(fr *frame, a []value) value {
 			return iface{creaderType, &native{&creader{tag: a[1].(string), src: a[2], n: a[3]}}}
 		},
+		vrt + "Readable": func(fr *frame, a []value) value {
+			return iface{creaderType, &native{&creader{tag: a[1].(string), src: a[2], n: a[3]}}}
+		},
 		vrt + "FailingReader": func(fr *frame, a []value) value {
 			return iface{creaderType, &native{&creader{tag: a[1].(string), src: a[2], n: a[3], fail: true}}}
 		},
 		"(reflect.creader).Close": func(fr *frame, a []value) value { return iface{} },
+		"(reflect.creader).Seek": func(fr *frame, a []value) value {
+			cr := a[0].(*native).v.(*creader)
+			if asInt64(a[2]) != 0 {
+				panic(engineError{"content reader: Seek with whence != 0"})
+			}
+			// bytes [src,src+n) of the content: seeking to off leaves [off, src+n)
+			end := binop(fr.i, tokenADD, nil, cr.src, cr.n)
+			cr.src = a[1]
+			cr.n = binop(fr.i, tokenSUB, nil, end, a[1])
+			return tuple{a[1], iface{}}
+		},
 		"(reflect.creader).Read": func(fr *frame, a []value) value {
 			i := fr.i
 			cr := a[0].(*native).v.(*creader)
